@@ -37,8 +37,7 @@ def reviewed : List ((String × String × String × Nat) × Class × String) := 
   (("data.rs", "new_import", "unwrap", 1), Class.outOfScope, "subcommands/features outside the properties: completion, imports, new, manpages"),
   (("data.rs", "process_removes", "index", 2), Class.guarded, "index/Option established by the preceding lines (parent_index/index/context_id set in finalize/add_*; filename.parent(); relpath/srcdir/filename set by init_module/load_all; slices after starts_with/first-byte tests; constant version string)"),
   (("data/import/download.rs", "handle", "unwrap", 5), Class.outOfScope, "subcommands/features outside the properties: completion, imports, new, manpages"),
-  (("data/import/local.rs", "get_path", "unwrap", 1), Class.outOfScope, "subcommands/features outside the properties: completion, imports, new, manpages"),
-  (("data/import/local.rs", "handle", "unwrap", 3), Class.outOfScope, "subcommands/features outside the properties: completion, imports, new, manpages"),
+  (("data/import/local.rs", "handle", "unwrap", 2), Class.guarded, "`path.parent()` of build_dir/imports/<x> (always has a parent) and `read_link` right after `is_symlink`; the two input-dependent unwraps (file_name of the import path, diff_utf8_paths) were real panics found by the C15 campaign and are errors since 611d4e8"),
   (("download.rs", "patch", "unwrap", 4), Class.builderComplete, "derive_builder .build().unwrap() with every required field set in the same expression; Option fields set by the loader"),
   (("download.rs", "render", "unwrap", 2), Class.builderComplete, "derive_builder .build().unwrap() with every required field set in the same expression; Option fields set by the loader"),
   (("download.rs", "srcdir", "unwrap", 1), Class.guarded, "index/Option established by the preceding lines (parent_index/index/context_id set in finalize/add_*; filename.parent(); relpath/srcdir/filename set by init_module/load_all; slices after starts_with/first-byte tests; constant version string)"),
@@ -62,7 +61,7 @@ def reviewed : List ((String × String × String × Nat) × Class × String) := 
   (("model/context_bag.rs", "add_context_or_builder", "index", 1), Class.guarded, "index/Option established by the preceding lines (parent_index/index/context_id set in finalize/add_*; filename.parent(); relpath/srcdir/filename set by init_module/load_all; slices after starts_with/first-byte tests; constant version string)"),
   (("model/context_bag.rs", "add_context_or_builder", "unwrap", 1), Class.guarded, "index/Option established by the preceding lines (parent_index/index/context_id set in finalize/add_*; filename.parent(); relpath/srcdir/filename set by init_module/load_all; slices after starts_with/first-byte tests; constant version string)"),
   (("model/context_bag.rs", "add_module", "index", 1), Class.guarded, "index/Option established by the preceding lines (parent_index/index/context_id set in finalize/add_*; filename.parent(); relpath/srcdir/filename set by init_module/load_all; slices after starts_with/first-byte tests; constant version string)"),
-  (("model/context_bag.rs", "add_module", "unwrap", 3), Class.guarded, "index/Option established by the preceding lines (parent_index/index/context_id set in finalize/add_*; filename.parent(); relpath/srcdir/filename set by init_module/load_all; slices after starts_with/first-byte tests; constant version string)"),
+  (("model/context_bag.rs", "add_module", "unwrap", 2), Class.guarded, "defined_in of the module being added: set by init_module for every module that comes from a file (the third unwrap, on the OTHER module of a name clash, was a real panic for the implicit default context's module: 165d73e)"),
   (("model/context_bag.rs", "context_by_id", "index", 1), Class.guarded, "index/Option established by the preceding lines (parent_index/index/context_id set in finalize/add_*; filename.parent(); relpath/srcdir/filename set by init_module/load_all; slices after starts_with/first-byte tests; constant version string)"),
   (("model/context_bag.rs", "finalize", "index", 7), Class.guarded, "index/Option established by the preceding lines (parent_index/index/context_id set in finalize/add_*; filename.parent(); relpath/srcdir/filename set by init_module/load_all; slices after starts_with/first-byte tests; constant version string)"),
   (("model/context_bag.rs", "finalize", "unwrap", 4), Class.guarded, "index/Option established by the preceding lines (parent_index/index/context_id set in finalize/add_*; filename.parent(); relpath/srcdir/filename set by init_module/load_all; slices after starts_with/first-byte tests; constant version string)"),
